@@ -90,6 +90,12 @@ CHECKS = {
         text="PROVED (lemma, all signatures): after the padding block of function.parse every positional and keyword-only parameter has a default slot and the real defaults remain aligned with the LAST parameters (padding in front), the parameter lists untouched. "
              "BOUNDED only — the property itself: pi(parse_f(reparse(to_code(emit_f(ir))))) == norm_f(pi(ir)) with the documented normalisations, over IR(n) x {class, pydantic, function x annotations x kw-only, argparse} x 3 styles x emit_default_doc. Ten known-finding classes on the pinned tree (argparse invents/drops defaults and collapses types; NumPy/Google docstrings inside emitted code lose descriptions; None default; negative int).",
         note="The zip-alignment lemma for function.emit promised in DESIGN was not carried (map/lambda pairs over the same tuple: outside the engine's subset)."),
+    "C08": dict(
+        category="other", design_ref="DESIGN.md §5 C01/C08",
+        technique="contract-based deductive verification of set_default_doc (E1: record with presence bits, string VCs) and of the shared quoting lemmas; run-time fixpoint contract rt(rt(x)) == rt(x) over the wider IR(n) domain for the property itself",
+        text="PROVED (lemma, all inputs): set_default_doc leaves a description alone when it already mentions 'Defaults'/'defaults', and whatever it appends starts with the old text and contains 'Defaults to' — so it never appends twice; quote is idempotent (contracts/C01.py). "
+             "BOUNDED only — the property itself: three consecutive rounds agree after the first, over docstring / class / pydantic / function / argparse / json_schema / sqlalchemy x3 on the wider domain (trigger words, embedded default, ellipsis, non-suffix defaults for ReST). Four broad known-finding families on the pinned tree (trigger words drift in every format; Google/NumPy descriptions grow inside emitted code; None for missing defaults; argparse alternates).",
+        note="The pinned tree violates this property broadly, so the known-finding families are wide; a new drift inside one of those families would be hidden."),
 }
 
 NA_REASON = "check not built yet (work in progress; see DESIGN.md for the plan)"
